@@ -485,6 +485,63 @@ func isModelled(c ccase) bool {
 	return len(c.data) >= 16 && modelled[string(c.data[4:8])]
 }
 
+// sencJob: decode a senc box on one path, then the second phase ParseReadBox(iv, nil);
+// result "<decode class>\t<parse class>\t<len(IVs)>\t<len(SubSamples)>\t<log2 bucket of the bytes allocated by the parse>"
+func sencJob(data []byte, cfg string) string {
+	n := len(data)
+	sr := cfg[0] == 'S'
+	iv := 0
+	fmt.Sscanf(cfg[1:], "%d", &iv)
+	var b mp4.Box
+	var err error
+	p, over, dt, da := measured(n, func() {
+		if sr {
+			b, err = mp4.DecodeBoxSR(0, mbits.NewFixedSliceReader(data))
+		} else {
+			b, err = mp4.DecodeBox(0, bytes.NewReader(data))
+		}
+	})
+	note(n, dt, da)
+	c := cls(p, over, err)
+	senc, isSenc := b.(*mp4.SencBox)
+	if c != "ok" || !isSenc {
+		return fmt.Sprintf("%s\t-\t0\t0\t0", c)
+	}
+	p, over, dt, da = measured(n, func() { err = senc.ParseReadBox(byte(iv), nil) })
+	note(n, dt, da)
+	pc := cls(p, over, err)
+	return fmt.Sprintf("%s\t%s\t%d\t%d\t%d", c, pc, len(senc.IVs), len(senc.SubSamples), bits.Len64(da))
+}
+
+// corrSenc: Q lines (both phases of senc against senc_box of C04AllocModel.v)
+func corrSenc() {
+	var jobs []job
+	var sel []ccase
+	for _, c := range countCases(false) {
+		if len(c.data) >= 16 && string(c.data[4:8]) == "senc" {
+			for _, iv := range []int{0, 8, 16, 1} {
+				for _, path := range []string{"R", "S"} {
+					jobs = append(jobs, job{kind: "Q", cfg: fmt.Sprintf("%s%d", path, iv), data: c.data})
+					sel = append(sel, c)
+				}
+			}
+		}
+	}
+	res := runJobs(jobs, nprocs())
+	for i, j := range jobs {
+		f := strings.Split(res[i], "\t")
+		for len(f) < 5 {
+			f = append(f, "0")
+		}
+		fmt.Fprintf(out, "Q\tq%d\t%s\t%s\t%s\t%s\t%s\t%s\t%s\n", i, j.cfg, hx.Hex(j.data), projectClass(f[0]), projectClass(f[1]), f[2], f[3], f[4])
+		for k, st := range []string{"box", "parse"} {
+			if strings.HasPrefix(f[k], "panic") || f[k] == "hang" || f[k] == "overalloc" {
+				fmt.Fprintln(out, failLine(st+"="+f[k], "hex:"+hx.Hex(j.data), "senc count-field inflation "+sel[i].desc+" cfg="+j.cfg+" (ParseReadBox)"))
+			}
+		}
+	}
+}
+
 // corrCounts: C lines (cases the Coq prologue models predict) + FAIL lines for direct property failures
 func corrCounts(r *hx.Rng, nRandom int) {
 	cases := countCases(true)
@@ -535,6 +592,7 @@ func corrCounts(r *hx.Rng, nRandom int) {
 			fmt.Fprintln(out, failLine("box="+f[0], "hex:"+hx.Hex(j.data), "count-field inflation "+c.desc+" path="+j.cfg))
 		}
 	}
+	corrSenc()
 }
 
 // searchCounts: every case at box level through the full box pipeline (decode both paths, Info x3, both encoders)
